@@ -21,7 +21,8 @@ RULE = ('Generated chains (L=2-6, all predefined site types, heterogeneous with 
         'any canonical form per site): expectation_value, expectation_value_multi_sites, expectation_value_term, correlation_function '
         '(bosonic and fermionic, i<j, i=j, i>j, sites beyond the unit cell and negative), entanglement_entropy, get_rho_segment and overlap '
         'against the reduced density matrix of a window of up to 8 sites built from the dominant eigenvectors of the dense unit-cell '
-        'transfer matrix (mixed transfer matrix for overlap). Non-trivial: chi >= 2 and an operator not proportional to the '
+        'transfer matrix (mixed transfer matrix for overlap). (segment_window) a segment cut (one- or two-sided) out of a random finite '
+        'chain, any canonical form: the same measurement functions equal the values of the parent state vector on those sites. Non-trivial: chi >= 2 and an operator not proportional to the '
         'identity with a non-vanishing entry. Distinct = distinct canonical JSON spec.')
 ASSUMPTIONS = ['site operators as validated by C12', 'MPS <-> dense conversion as validated by C07']
 TOL = 1e-9
@@ -667,7 +668,105 @@ def run_infw(spec):
     return {'nontrivial': True, 'classes': classes}
 
 
+# ------------------------------------------------------------------------------------------------
+# segment MPS: a segment cut out of a finite chain measures what the parent chain measures on those sites
+
+
+@st.composite
+def segw_specs(draw, tier):
+    return {'chain': draw(M.chain_specs(4, 6, max_dim=2 ** 10)), 'seed': draw(st.integers(0, 10 ** 6)), 'cut': [draw(st.integers(0, 2)), draw(st.integers(0, 2))],
+            'forms': [draw(st.sampled_from(['B', 'B', 'A', 'C', 'G', 'Th'])) for _ in range(6)], 'norm': draw(st.sampled_from([1.0, 0.5, 2.0])),
+            'which': draw(st.sampled_from(['onsite', 'multi_sites', 'term', 'corr', 'corr', 'entropy', 'rho_segment']))}
+
+
+def run_segw(spec):
+    from tenpy.networks.mps import MPS
+    rng = np.random.default_rng(spec['seed'] + 9)
+    with warnings.catch_warnings():
+        warnings.simplefilter('ignore')
+        psites = M.build_sites(spec['chain'])
+        Lp = len(psites)
+        first = min(spec['cut'][0], Lp - 2)
+        last = max(first + 1, Lp - 1 - spec['cut'][1])
+        if first == 0 and last == Lp - 1:
+            first = 1
+        vec, q = M.random_state(psites, spec['seed'])
+        parent = MPS.from_full(psites, M.to_npc_state(psites, vec, q), form='B')
+        seg = parent.extract_segment(first, last)
+        seg.norm = spec['norm']  # (MPS methods ignore psi.norm)
+        n = seg.L
+        seg.convert_form(spec['forms'][:n])
+        sites = list(seg.sites)
+        v = vec.ravel()
+        ev_ = lambda O: np.vdot(v, O @ v)
+        which = spec['which']
+        tags = dict(fn=which, bc='segment')
+        fermionic = any(M.SITE_CFGS[c][0] in M.FERMIONIC for c in spec['chain']['cfg'])
+        classes = ['seg:' + which, 'cut:%s' % ('both' if first > 0 and last < Lp - 1 else 'one-sided')] + (['fermionic'] if fermionic else [])
+        if which == 'onsite':
+            ops = [names_of(s_, rng, fermionic=False) for s_ in sites]
+            got = seg.expectation_value(ops)
+            exp = [ev_(M.dense_op(psites, {first + k: M.op_matrix(sites[k], ops[k])})) for k in range(n)]
+            require(np.allclose(got, exp, atol=TOL), 'expectation_value', 'segment %d..%d ops %s: %s vs %s' % (first, last, ops, np.round(got, 8).tolist(), np.round(exp, 8).tolist()), **tags)
+        elif which == 'multi_sites':
+            m = int(rng.integers(1, min(4, n) + 1))
+            k0 = int(rng.integers(0, n - m + 1))
+            names = [names_of(sites[k0 + k], rng, False) for k in range(m)]
+            got = seg.expectation_value_multi_sites(names, k0)
+            exp = ev_(M.dense_op(psites, {first + k0 + k: M.op_matrix(sites[k0 + k], names[k]) for k in range(m)}))
+            require(abs(got - exp) < TOL, 'expectation_value_multi_sites', '%s at %d: %s vs %s' % (names, k0, got, exp), **tags)
+        elif which == 'term':
+            m = int(rng.integers(1, 5))
+            term = []
+            for _ in range(m):
+                k = int(rng.integers(0, n))
+                term.append((names_of(sites[k], rng), k))
+            nf = sum(sites[k].op_needs_JW(nm) for nm, k in term)
+            if nf % 2:
+                cand = [k for k in range(n) if names_of(sites[k], rng, True) is not None]
+                k = cand[int(rng.integers(0, len(cand)))]
+                term.append((names_of(sites[k], rng, True), k))
+            got = seg.expectation_value_term(term)
+            exp = ev_(M.jw_term(psites, [(nm, first + k) for nm, k in term]))
+            require(abs(got - exp) < TOL, 'expectation_value_term', 'term %s in segment %d..%d: %s vs %s' % (term, first, last, got, exp), **tags)
+            classes.append('term-fermionic' if nf else 'term-bosonic')
+        elif which == 'corr':
+            ferm = fermionic and all(names_of(s_, rng, True) is not None for s_ in sites) and bool(rng.integers(0, 2))
+            ops1 = [names_of(s_, rng, ferm) for s_ in sites]
+            ops2 = [names_of(s_, rng, ferm) for s_ in sites]
+            got = seg.correlation_function(ops1, ops2)
+            exp = np.array([[ev_(M.jw_term(psites, [(ops1[i], first + i), (ops2[j], first + j)])) for j in range(n)] for i in range(n)])
+            require(np.allclose(got, exp, atol=TOL), 'correlation_function', 'segment %d..%d ops1 %s ops2 %s: max dev %r' % (first, last, ops1, ops2, float(np.max(np.abs(got - exp)))),
+                    fermionic=ferm, **tags)
+            classes.append('corr-fermionic' if ferm else 'corr-bosonic')
+        elif which == 'entropy':
+            got = seg.entanglement_entropy(bonds=list(range(0, n + 1)))
+            dimsp = [s_.dim for s_ in psites]
+            exp = []
+            for b in range(first, last + 2):
+                sv = np.linalg.svd(vec.reshape(int(np.prod(dimsp[:b])), -1), compute_uv=False) if 0 < b < Lp else np.array([1.])
+                w_ = sv ** 2
+                w_ = w_[w_ > 1e-30]
+                exp.append(float(-np.sum(w_ * np.log(w_))))
+            require(np.allclose(got, exp, atol=1e-8), 'entanglement_entropy', 'segment %d..%d: %s vs %s' % (first, last, np.round(got, 8).tolist(), np.round(exp, 8).tolist()), **tags)
+        elif which == 'rho_segment':
+            m = int(rng.integers(1, min(3, n) + 1))
+            sel = sorted(rng.permutation(n)[:m].tolist())
+            R = seg.get_rho_segment(sel)
+            lab = ['p%d' % k for k in range(m)] + ['p%d*' % k for k in range(m)]
+            got = np.transpose(R.to_ndarray(), [R.get_leg_index(x) for x in lab])
+            dimsp = [s_.dim for s_ in psites]
+            keep = [first + k for k in sel]
+            other = [k for k in range(Lp) if k not in keep]
+            t = np.transpose(vec.reshape(dimsp), keep + other).reshape(int(np.prod([dimsp[k] for k in keep])), -1)
+            exp = (t @ t.conj().T)
+            got = got.reshape(exp.shape)
+            require(np.allclose(got, exp, atol=TOL), 'get_rho_segment', 'sites %s of segment %d..%d: max dev %r' % (sel, first, last, float(np.max(np.abs(got - exp)))), **tags)
+    return {'nontrivial': max(seg.chi) >= 2, 'classes': classes}
+
+
 SUBCHECKS = [
+    Sub('segment_window', segw_specs, run_segw, quick=400, thorough=20000),
     Sub('infinite_window', infw_specs, run_infw, quick=400, thorough=20000),
     Sub('expectation_values', ev_specs, run_ev, quick=1600, thorough=80000),
     Sub('rho_charges_sampling', rho_specs, run_rho, quick=800, thorough=40000),
